@@ -20,6 +20,9 @@ struct Args {
     /// a libFuzzer input to be turned into a replay file and replayed
     fuzz_input: Option<PathBuf>,
     part: Option<String>,
+    /// write generated cases of `part` (JSON) into this directory: seeds of a fuzz corpus
+    emit_corpus: Option<PathBuf>,
+    count: u64,
 }
 
 fn parse_args() -> Result<Args, String> {
@@ -40,6 +43,8 @@ fn parse_args() -> Result<Args, String> {
     let mut trace = false;
     let mut fuzz_input = None;
     let mut part = None;
+    let mut emit_corpus = None;
+    let mut count = 64u64;
     while let Some(a) = it.next() {
         match a.as_str() {
             "--tier" => {
@@ -61,6 +66,8 @@ fn parse_args() -> Result<Args, String> {
             "--replay" => replay = Some(PathBuf::from(it.next().ok_or("--replay needs a file")?)),
             "--fuzz-input" => fuzz_input = Some(PathBuf::from(it.next().ok_or("--fuzz-input needs a file")?)),
             "--part" => part = Some(it.next().ok_or("--part needs a name")?),
+            "--emit-corpus" => emit_corpus = Some(PathBuf::from(it.next().ok_or("--emit-corpus needs a directory")?)),
+            "--count" => count = it.next().ok_or("--count needs a value")?.parse::<u64>().map_err(|e| e.to_string())?,
             "--child" => child = true,
             "--trace" => trace = true,
             other => return Err(format!("unknown argument {}", other)),
@@ -76,6 +83,8 @@ fn parse_args() -> Result<Args, String> {
         trace,
         fuzz_input,
         part,
+        emit_corpus,
+        count,
     })
 }
 
@@ -285,6 +294,28 @@ fn main() {
     };
     if let Some(input) = &args.fuzz_input {
         std::process::exit(fuzz_input_main(&args, input));
+    }
+    if let Some(dir) = &args.emit_corpus {
+        let Some(prop) = vh::props::build(&args.id) else {
+            eprintln!("unknown property {}", args.id);
+            std::process::exit(2);
+        };
+        let part = args.part.clone().unwrap_or_default();
+        let Some(p) = prop.parts.iter().find(|p| p.name() == part) else {
+            eprintln!("unknown part {}", part);
+            std::process::exit(2);
+        };
+        let _ = std::fs::create_dir_all(dir);
+        let mut n = 0;
+        for i in 0..args.count {
+            if let Some(case) = p.generate(engine::splitmix(args.seed.wrapping_mul(1_000_003).wrapping_add(i))) {
+                if std::fs::write(dir.join(format!("seed-{:04}.json", i)), serde_json::to_vec(&case).unwrap_or_default()).is_ok() {
+                    n += 1;
+                }
+            }
+        }
+        println!("{} generated cases written to {}", n, dir.display());
+        std::process::exit(0);
     }
     if args.child {
         std::process::exit(child_main(&args));
